@@ -13,7 +13,7 @@ import json
 import re
 import types
 
-from harness.lib import S, OS, L, P, B, O, OZ
+from harness.lib import S, OS, L, P, B, O, OZ, Zc
 
 ID = "C18"
 COQ_PROP = "props/C18.v"
@@ -26,8 +26,11 @@ RULE = ("every wrapper class discovered by inspect in pypika.terms/functions/ana
         "arity/argument-kind assignment x ALL presence combinations of the optional clauses the class supports "
         "(distinct, filter, over, orderby, frame, ignore_nulls, alias, schema) [exhaustive over presence flags: true]; "
         "sub-shapes (0/1/2 criteria, 0/1/2 partitions, order directions, ROWS/RANGE x single/BETWEEN x bound kinds, "
-        "bounds from {None,0,1,2,10,10^9}) drawn by the seeded rng in the quick tier and enumerated completely for the "
-        "window classes in the thorough tier; one complete frame block (2 kinds x (13 single + 169 BETWEEN) bounds) "
+        "bounds from {None,0,1,2,10,10^9} and non-integral offsets 0.5/Decimal 2.25/'1.5'/1e-05) drawn by the seeded rng in the quick tier and enumerated completely for the "
+        "window classes in the thorough tier; one complete frame block (2 kinds x (19 single + 361 BETWEEN) bounds) "
+        "[exhaustive over frame shapes x bound set: true]; a block over every ordered pair of filter-criterion shapes "
+        "(simple/OR/AND/XOR/AND-over-OR, one call or two) and a block of DISTINCT with arguments/criteria containing the "
+        "wrapper's own NAME( "
         "[exhaustive over frame shapes x bound set: true]; random Function/CustomFunction calls with 0-6 arguments; "
         "malformed stream: unsupported clause methods, second frame, filter() without criteria or with only EmptyCriterion "
         "arguments, frames without over(), CustomFunction arity "
@@ -47,6 +50,7 @@ ASSUMPTIONS = [
 ALLOWED_AXIOMS = []
 
 BOUND_SET = [None, 0, 1, 2, 10, 10 ** 9]
+FRACTION_SET = [["f", 0.5], ["dec", "2.25"], ["s", "1.5"], ["f", 1e-05], ["s", "5"]]      # non-int offsets: str(value) is rendered
 Q = '"'
 KW = dict(with_namespace=False, quote_char=Q, dialect=None)
 
@@ -334,6 +338,9 @@ def arg_value(spec):
     t, k = spec[0], spec[1]
     if t == "field":
         return Field("s%d" % k), "PTerm"
+    if t == "selfcall":                 # a call whose text contains the wrapper's own NAME( : NAME("z<k>") or CHECKNAME("z<k>")
+        from pypika.terms import Function
+        return Function(("CHECK" if k % 2 == 0 else "") + spec[2], Field("z%d" % k)), "PTerm"
     if t == "int":
         return 8100 + k, "PTerm"
     if t == "str":
@@ -382,20 +389,51 @@ def arg_alone_text(spec):
     return str(v.value)
 
 
+N_CRIT = 10
+
+
 def crit_atoms():
+    """filter criteria: six simple ones, then OR-, AND-, XOR-complex ones and an AND whose left member is an OR"""
     from pypika import Field
     f = Field
-    return [f("fa") == 1, f("fb") > 2, f("fc").isnull(), f("fd").between(1, 5), f("fe").like("x%"), f("ff") != "q"]
+    return [f("fa") == 1, f("fb") > 2, f("fc").isnull(), f("fd").between(1, 5), f("fe").like("x%"), f("ff") != "q",
+            (f("ga") == 1) | (f("gb") == 1), (f("ha") == 1) & (f("hb") == 2), (f("ia") == 1) ^ (f("ib") > 2),
+            ((f("ja") == 1) | (f("jb") == 1)) & (f("jc") == 3)]
 
 
 def crit_obj(i):
-    """index -1 is an EmptyCriterion (e.g. a dynamic Criterion.all([]))"""
-    from pypika import EmptyCriterion
+    """index -1 is an EmptyCriterion (e.g. a dynamic Criterion.all([])); ["fncrit", NAME, k] is NAME("fq<k>")>1,
+    a criterion whose text contains a function call of the given name"""
+    from pypika import EmptyCriterion, Field
+    from pypika.terms import Function
+    if isinstance(i, list):
+        return Function(i[1], Field("fq%d" % i[2])) > 1
     return EmptyCriterion() if i < 0 else crit_atoms()[i]
 
 
+def crit_is_empty(i):
+    return not isinstance(i, list) and i < 0
+
+
 def crit_text(i):
-    return None if i < 0 else crit_atoms()[i].get_sql(**KW)
+    """the criterion rendered alone (not as a sub-criterion)"""
+    return None if crit_is_empty(i) else crit_obj(i).get_sql(**KW)
+
+
+def crit_needs_brackets(i):
+    """an OR / XOR ComplexCriterion must keep its parentheses inside a conjunction"""
+    from pypika.terms import ComplexCriterion
+    from pypika.enums import Boolean
+    c = crit_obj(i)
+    return isinstance(c, ComplexCriterion) and c.comparator != Boolean.and_
+
+
+def conj_text(specs):
+    """what FILTER(WHERE ...) must contain for these (non-empty) criteria: the conjunction, written with the
+    parentheses an OR/XOR member needs; one criterion alone stands as it is"""
+    if len(specs) == 1:
+        return crit_text(specs[0])
+    return " AND ".join("(" + crit_text(i) + ")" if crit_needs_brackets(i) else crit_text(i) for i in specs)
 
 
 def win_term(spec):
@@ -419,7 +457,15 @@ def bound_value(b):
     from pypika import analytics as an
     if b[0] == "cur":
         return an.CURRENT_ROW
-    return (an.Preceding if b[0] == "prec" else an.Following)(*([] if b[1] is None else [b[1]]))
+    return (an.Preceding if b[0] == "prec" else an.Following)(*([] if b[1] is None else [offset_value(b[1])]))
+
+
+def offset_value(n):
+    """int, or ["f", 0.5] float, ["dec", "2.25"] Decimal, ["s", "1.5"] numeric str"""
+    from decimal import Decimal
+    if isinstance(n, list):
+        return {"f": float, "dec": Decimal, "s": str}[n[0]](n[1])
+    return n
 
 
 # ==============================================================================================
@@ -487,7 +533,9 @@ def run_impl(case):
 def bound_coq(b):
     if b[0] == "cur":
         return "BCurrentRow"
-    return "(BEdge %s %s)" % ("Preceding" if b[0] == "prec" else "Following", OZ(b[1]))
+    n = b[1]
+    off = "None" if n is None else ("(Some (ORaw %s))" % S(str(offset_value(n))) if isinstance(n, list) else "(Some (OInt %s))" % Zc(n))
+    return "(BEdge %s %s)" % ("Preceding" if b[0] == "prec" else "Following", off)
 
 
 def op_coq(op):
@@ -495,7 +543,8 @@ def op_coq(op):
     if k == "distinct":
         return "ODistinct"
     if k == "filter":
-        return "(OFilter %s)" % L([OS(crit_text(i)) for i in op[1]])
+        return "(OFilter %s)" % L(["None" if crit_is_empty(i) else "(Some (%s, %s))" % (B(crit_needs_brackets(i)), S(crit_text(i)))
+                                   for i in op[1]])
     if k == "over":
         return "(OOver %s)" % L([S(win_text(t)) for t in op[1]])
     if k == "orderby":
@@ -562,7 +611,7 @@ def rand_bound(rng, allow_cur=True):
     r = rng.random()
     if allow_cur and r < 0.2:
         return ["cur"]
-    return [rng.choice(["prec", "foll"]), rng.choice(BOUND_SET)]
+    return [rng.choice(["prec", "foll"]), rng.choice(BOUND_SET + BOUND_SET + FRACTION_SET)]
 
 
 def rand_frame(rng):
@@ -585,12 +634,12 @@ def clause_ops(rng, e, flags):
         ops.append(["ignore_nulls"])
     if flags.get("filter"):
         n = rng.choice([1, 1, 2, 2, 3])
-        cs = rng.sample(range(6), n)
+        cs = rng.sample(range(N_CRIT), n)
         if rng.random() < 0.2:
             cs.insert(rng.randrange(len(cs) + 1), -1)               # an EmptyCriterion among the criteria
         ops.append(["filter", cs])
         if rng.random() < 0.25:
-            ops.append(["filter", rng.choice([[rng.randrange(6)], [], [-1]])])
+            ops.append(["filter", rng.choice([[rng.randrange(N_CRIT)], [], [-1]])])
     if flags.get("over"):
         n = rng.choice([0, 1, 1, 2, 2])
         ops.append(["over", rand_win_terms(rng, n, 0)])
@@ -649,6 +698,8 @@ def wrapper_cases(rng, tier):
                 for _ in range(reps):
                     c = base_case(e, kinds, pick_args(rng, kinds, True, special, e["cls"]))
                     c["ops"] = clause_ops(rng, e, flags)
+                    if e["distinct"] and kinds and kinds[0] == "PTerm" and rng.random() < 0.4:
+                        c["args"][0] = ["selfcall", rng.randrange(2), "GEN_FN" if e["named"] else e["sql"]]
                     if flags.get("alias"):
                         c["alias"] = rng.choice(["al", "my alias", "x"])
                         c["alias_ctor"] = bool(e["alias"]) and rng.random() < 0.8
@@ -665,7 +716,7 @@ def wrapper_cases(rng, tier):
 
 def frame_block(rng):
     """complete: 2 kinds x (13 single bounds + 13x13 BETWEEN pairs) on one window class, inside OVER"""
-    bounds = [["cur"]] + [[d, n] for d in ("prec", "foll") for n in BOUND_SET]
+    bounds = [["cur"]] + [[d, n] for d in ("prec", "foll") for n in BOUND_SET + FRACTION_SET[:3]]
     out = []
     clss = [("pypika.analytics", "Sum"), ("pypika.analytics", "FirstValue"), ("pypika.terms", "WindowFrameAnalyticFunction"),
             ("pypika.analytics", "Max")]
@@ -781,8 +832,57 @@ def malformed_cases(rng, n):
     return out
 
 
+def distinct_block(rng):
+    """every class with .distinct(): arguments / filter criteria whose own text contains the wrapper's NAME( ,
+    with and without DISTINCT, and multi-criteria filters with OR/XOR members"""
+    out = []
+    for e in catalogue():
+        if not e["distinct"]:
+            continue
+        name = "GEN_FN" if e["named"] else e["sql"]
+        for kinds, slots, special in e["probes"]:
+            if not kinds or len(kinds) > 2:
+                continue
+            for distinct in (True, False):
+                for variant in range(6):
+                    args = pick_args(rng, kinds, False, special, e["cls"])
+                    ops = [["distinct"]] if distinct else []
+                    if variant in (0, 1, 4):
+                        args[0] = ["selfcall", variant % 2, name]
+                    if variant in (2, 4):
+                        ops.append(["filter", [["fncrit", name, 0]]])
+                    if variant == 3:
+                        ops.append(["filter", [["fncrit", "CHECK" + name, 1], 6]])
+                    if variant == 5:
+                        ops += [["filter", [6, 0]], ["filter", [8]]]
+                    if variant % 2:
+                        rng.shuffle(ops)
+                    out.append(dict(base_case(e, kinds, args), ops=ops))
+    return out
+
+
+def filter_block(rng):
+    """every ordered pair of criteria (simple, OR, AND, XOR, AND-over-OR) in one call and in two calls, on one
+    aggregate and one analytic class: complete over the criterion shapes"""
+    out = []
+    shapes = [0, 3, 6, 7, 8, 9]
+    clss = [("pypika.functions", "Sum"), ("pypika.analytics", "Sum"), ("pypika.functions", "Count"), ("pypika.analytics", "FirstValue")]
+    i = 0
+    for a in shapes:
+        out.append({"mod": "pypika.functions", "cls": "Avg", "args": [["field", 0]], "ops": [["filter", [a]]], "ro": {}})
+        for b in shapes:
+            for split in (False, True):
+                mod, cls = clss[i % len(clss)]
+                i += 1
+                ops = [["filter", [a]], ["filter", [b]]] if split else [["filter", [a, b]]]
+                if cls == "FirstValue" or (mod.endswith("analytics") and i % 2):
+                    ops.append(["over", [["field", 0]]])
+                out.append({"mod": mod, "cls": cls, "args": [["field", 0]], "ops": ops, "ro": {}})
+    return out
+
+
 def gen_cases(rng, tier):
-    out = frame_block(rng) + wrapper_cases(rng, tier)
+    out = frame_block(rng) + distinct_block(rng) + filter_block(rng) + wrapper_cases(rng, tier)
     out += generic_cases(rng, 300 if tier == "quick" else 4000)
     out += malformed_cases(rng, 150 if tier == "quick" else 1500)
     if tier != "quick":
@@ -804,6 +904,13 @@ def corpus():
         # fixed (b2a2b7a): CustomFunction without declared params ignored its call arguments
         {"mod": "pypika.terms", "cls": "CustomFunction", "name": "CF", "params": None, "args": [["field", 0], ["field", 1]],
          "ops": [], "ro": {}},
+        # red-team seeds C18-1/2/4: DISTINCT once; OR criterion inside a conjunction; fractional offsets
+        {"mod": "pypika.functions", "cls": "Sum", "args": [["selfcall", 0, "SUM"]], "ops": [["distinct"]], "ro": {}},
+        {"mod": "pypika.functions", "cls": "Count", "args": s0, "ops": [["distinct"], ["filter", [["fncrit", "COUNT", 0]]]], "ro": {}},
+        {"mod": "pypika.functions", "cls": "Sum", "args": s0, "ops": [["filter", [6, 0]]], "ro": {}},
+        {"mod": "pypika.functions", "cls": "Count", "args": [["star", 0]], "ops": [["filter", [1]], ["filter", [6]]], "ro": {}},
+        {"mod": "pypika.analytics", "cls": "Sum", "args": s0, "ops": [["orderby", [["field", 0]], None],
+                                                                      ["range", ["prec", ["f", 0.5]], ["foll", ["dec", "1.5"]]]], "ro": {}},
         # fixed defect (5862a90): bound 0
         {"mod": "pypika.analytics", "cls": "Sum", "args": s0, "ops": [["over", [["field", 0]]], ["rows", ["prec", 0], ["foll", 0]]], "ro": {}},
         # everything at once
@@ -941,7 +1048,7 @@ def _expect(case):
         elif k == "ignore_nulls":
             ex["ignore_nulls"] = True
         elif k == "filter":
-            real = [crit_text(i) for i in op[1] if i >= 0]
+            real = [i for i in op[1] if not crit_is_empty(i)]
             ex["filter_calls"] = ex.get("filter_calls", []) + [list(op[1])]
             if real:                      # empty criteria are neutral; a call without any real criterion asks for nothing
                 ex["filters"] = (ex["filters"] or []) + real
@@ -960,17 +1067,26 @@ def _expect(case):
 
 
 def _bound_denotes(text, b):
+    """the bound text denotes the number given: an int as its decimal numeral, anything else as str(value)
+    (a float/Decimal/numeric str keeps its fractional part), UNBOUNDED only when no number was given"""
     text = text.strip()
     if b[0] == "cur":
         return text == "CURRENT ROW"
-    m = re.fullmatch(r"(UNBOUNDED|-?\d+) (PRECEDING|FOLLOWING)", text)
+    m = re.fullmatch(r"(\S+) (PRECEDING|FOLLOWING)", text)
     if not m:
         return False
     if m.group(2) != ("PRECEDING" if b[0] == "prec" else "FOLLOWING"):
         return False
     if b[1] is None:
         return m.group(1) == "UNBOUNDED"
-    return m.group(1) != "UNBOUNDED" and int(m.group(1)) == b[1] and m.group(1) == str(b[1])
+    if m.group(1) == "UNBOUNDED":
+        return False
+    v = offset_value(b[1])
+    try:
+        from decimal import Decimal
+        return Decimal(m.group(1)) == Decimal(str(v))
+    except Exception:
+        return m.group(1) == str(v)
 
 
 def _supports(obj_cls, op):
@@ -1128,8 +1244,9 @@ def oracle(case, outcome):
             return V
         j = _match_paren(rest, len(head) - len("(WHERE ") )
         crit = rest[len(head):j]
-        if crit != " AND ".join(ex["filters"]):
-            viol("filter", "criteria", "criteria %r, expected each once in call order %r" % (crit, ex["filters"]))
+        if crit != conj_text(ex["filters"]):
+            viol("filter", "criteria", "FILTER criteria %r do not denote the conjunction of the criteria given, in call order: %r"
+                 % (crit, conj_text(ex["filters"])))
         rest = rest[j + 1:]
     elif "FILTER(" in rest:
         viol("filter", "unexpected", "FILTER rendered without filter()")
@@ -1236,7 +1353,7 @@ def histogram(cases):
                 inc("frame=" + ("between" if op[2] is not None else "single"))
                 for b in (op[1], op[2]):
                     if b is not None:
-                        inc("bound=" + (b[0] if b[0] == "cur" else "%s:%s" % (b[0], b[1])))
+                        inc("bound=" + (b[0] if b[0] == "cur" else "%s:%s" % (b[0], b[1][1] if isinstance(b[1], list) else b[1])))
         if c.get("alias"):
             inc("alias")
         if c.get("schema"):
